@@ -1,7 +1,25 @@
 //! C03 — address values are always valid (child module of `addr`: sees the private field).
+//!
+//! Closure under composition is by induction on the type invariant: every harness starts from an
+//! *arbitrary* value satisfying the invariant (constructed through the private field, not through
+//! the code under test) and shows that the operation's result satisfies it again.
 use super::*;
 use crate::verif_oracle::*;
+use core::iter::Step;
 
+fn any_virt() -> VirtAddr {
+    VirtAddr(any_canonical())
+}
+fn any_physaddr() -> PhysAddr {
+    PhysAddr(any_phys())
+}
+fn any_pow2() -> u64 {
+    let k: u32 = kani::any();
+    kani::assume(k < 64);
+    1u64 << k
+}
+
+// ---------------------------------------------------------------- VirtAddr constructors
 #[kani::proof]
 fn c03_virt_try_new_exact() {
     let x: u64 = kani::any();
@@ -35,4 +53,199 @@ fn c03_virt_new_invalid_xpanic() {
     kani::cover!(true);
     let _v = VirtAddr::new(x);
     vp!(C03, false, "new returned for a non-canonical value");
+}
+
+#[kani::proof]
+fn c03_virt_new_truncate() {
+    let x: u64 = kani::any();
+    let v = VirtAddr::new_truncate(x);
+    vp!(C03, is_canonical(v.0), "new_truncate produced a non-canonical value");
+    vp!(C03, v.0 == sign_extend48(x), "new_truncate is not sign extension of the low 48 bits");
+    vp!(C03, VirtAddr::new_truncate(v.0).0 == v.0, "new_truncate is not idempotent");
+    if is_canonical(x) {
+        vp!(C03, v.0 == x, "new_truncate disagrees with the checked constructor on valid input");
+    }
+    let y: u64 = kani::any();
+    kani::assume(y % (1 << 48) == x % (1 << 48));
+    vp!(C03, VirtAddr::new_truncate(y).0 == v.0, "new_truncate depends on bits 48..64");
+    kani::cover!(x != y);
+}
+
+#[kani::proof]
+fn c03_virt_zero_and_null() {
+    vp!(C03, VirtAddr::zero().0 == 0, "zero() is not 0");
+    let v = any_virt();
+    vp!(C03, v.is_null() == (v.0 == 0), "is_null wrong");
+}
+
+// ---------------------------------------------------------------- PhysAddr constructors
+#[kani::proof]
+fn c03_phys_try_new_exact() {
+    let x: u64 = kani::any();
+    match PhysAddr::try_new(x) {
+        Ok(p) => {
+            vp!(C03, is_phys(x), "PhysAddr::try_new accepted bits 52..64");
+            vp!(C03, p.0 == x && p.as_u64() == x, "PhysAddr::try_new changed a valid value");
+        }
+        Err(e) => {
+            vp!(C03, !is_phys(x), "PhysAddr::try_new rejected a valid value");
+            vp!(C03, e.0 == x, "PhysAddr error does not carry the input");
+        }
+    }
+    kani::cover!(!is_phys(x));
+    kani::cover!(is_phys(x) && x > 0xf_0000_0000_0000);
+}
+
+#[kani::proof]
+fn c03_phys_new_valid() {
+    let x = any_phys();
+    vp!(C03, PhysAddr::new(x).0 == x, "PhysAddr::new changed a valid value");
+    kani::cover!(true);
+}
+
+#[kani::proof]
+fn c03_phys_new_invalid_xpanic() {
+    let x: u64 = kani::any();
+    kani::assume(!is_phys(x));
+    kani::cover!(true);
+    let _p = PhysAddr::new(x);
+    vp!(C03, false, "PhysAddr::new returned for an invalid value");
+}
+
+#[kani::proof]
+fn c03_phys_new_truncate() {
+    let x: u64 = kani::any();
+    let p = PhysAddr::new_truncate(x);
+    vp!(C03, is_phys(p.0), "PhysAddr::new_truncate left bits 52..64 set");
+    vp!(C03, p.0 == x - (x >> 52 << 52), "PhysAddr::new_truncate is not x mod 2^52");
+    vp!(C03, PhysAddr::new_truncate(p.0).0 == p.0, "PhysAddr::new_truncate not idempotent");
+    if is_phys(x) {
+        vp!(C03, p.0 == x, "PhysAddr::new_truncate disagrees with checked constructor");
+    }
+    let y: u64 = kani::any();
+    kani::assume((y ^ x) << 12 == 0);
+    vp!(C03, PhysAddr::new_truncate(y).0 == p.0, "PhysAddr::new_truncate depends on bits 52..64");
+    vp!(C03, PhysAddr::zero().0 == 0, "PhysAddr::zero");
+    kani::cover!(x != y);
+}
+
+// ---------------------------------------------------------------- alignment keeps the invariant
+macro_rules! align_invariant {
+    ($name:ident, $t:ty) => {
+        #[kani::proof]
+        fn $name() {
+            let v = any_virt();
+            let p = any_physaddr();
+            let a: $t = kani::any();
+            let which: u8 = kani::any();
+            match which {
+                0 => vp!(C03, is_canonical(v.align_up(a).0), "VirtAddr::align_up left the canonical range"),
+                1 => vp!(C03, is_canonical(v.align_down(a).0), "VirtAddr::align_down left the canonical range"),
+                2 => vp!(C03, is_phys(p.align_up(a).0), "PhysAddr::align_up left the 52-bit range"),
+                _ => vp!(C03, is_phys(p.align_down(a).0), "PhysAddr::align_down left the 52-bit range"),
+            }
+            kani::cover!(which == 0);
+            kani::cover!(which == 2);
+        }
+    };
+}
+align_invariant!(c03_align_invariant_u64_mpanic, u64);
+align_invariant!(c03_align_invariant_u32_mpanic, u32);
+align_invariant!(c03_align_invariant_u16_mpanic, u16);
+align_invariant!(c03_align_invariant_u8_mpanic, u8);
+
+// ---------------------------------------------------------------- operators keep the invariant
+#[kani::proof]
+fn c03_virt_ops_invariant_mpanic() {
+    let v = any_virt();
+    let n: u64 = kani::any();
+    let which: u8 = kani::any();
+    let r = match which {
+        0 => v + n,
+        1 => v - n,
+        2 => {
+            let mut w = v;
+            w += n;
+            w
+        }
+        _ => {
+            let mut w = v;
+            w -= n;
+            w
+        }
+    };
+    vp!(C03, is_canonical(r.0), "VirtAddr operator produced a non-canonical address");
+    kani::cover!(which == 0 && n > 0);
+    kani::cover!(which == 1 && n > 0);
+    kani::cover!(which == 2);
+    kani::cover!(which == 3);
+}
+
+#[kani::proof]
+fn c03_phys_ops_invariant_mpanic() {
+    let p = any_physaddr();
+    let n: u64 = kani::any();
+    let which: u8 = kani::any();
+    let r = match which {
+        0 => p + n,
+        1 => p - n,
+        2 => {
+            let mut w = p;
+            w += n;
+            w
+        }
+        _ => {
+            let mut w = p;
+            w -= n;
+            w
+        }
+    };
+    vp!(C03, is_phys(r.0), "PhysAddr operator produced an address with bits 52..64");
+    kani::cover!(which == 0 && n > 0);
+    kani::cover!(which == 1 && n > 0);
+}
+
+// ---------------------------------------------------------------- Step keeps the invariant
+#[kani::proof]
+fn c03_virt_step_invariant() {
+    let v = any_virt();
+    let n: usize = kani::any();
+    if let Some(r) = Step::forward_checked(v, n) {
+        vp!(C03, is_canonical(r.0), "Step::forward_checked produced a non-canonical address");
+    }
+    if let Some(r) = Step::backward_checked(v, n) {
+        vp!(C03, is_canonical(r.0), "Step::backward_checked produced a non-canonical address");
+    }
+    if let Some(r) = VirtAddr::forward_checked_u64(v, n as u64) {
+        vp!(C03, is_canonical(r.0), "forward_checked_u64 produced a non-canonical address");
+    }
+    if let Some(r) = VirtAddr::backward_checked_u64(v, n as u64) {
+        vp!(C03, is_canonical(r.0), "backward_checked_u64 produced a non-canonical address");
+    }
+    kani::cover!(Step::forward_checked(v, n).is_some() && v.0 < HALF && n as u64 > HALF);
+    kani::cover!(Step::backward_checked(v, n).is_some() && v.0 >= UPPER_BASE && n as u64 > HALF);
+}
+
+#[kani::proof]
+fn c03_virt_step_panicking_invariant_mpanic() {
+    let v = any_virt();
+    let n: usize = kani::any();
+    if kani::any() {
+        vp!(C03, is_canonical(Step::forward(v, n).0), "Step::forward produced a non-canonical address");
+    } else {
+        vp!(C03, is_canonical(Step::backward(v, n).0), "Step::backward produced a non-canonical address");
+    }
+    kani::cover!(true);
+}
+
+// ---------------------------------------------------------------- pointer conversions
+#[kani::proof]
+fn c03_virt_ptr_conversions_mpanic() {
+    let x: u64 = kani::any();
+    let v = VirtAddr::from_ptr(x as *const u8);
+    vp!(C03, is_canonical(v.0), "from_ptr produced a non-canonical address");
+    vp!(C03, v.0 == x, "from_ptr changed the pointer value");
+    vp!(C03, v.as_ptr::<u8>() as u64 == x, "as_ptr changed the address");
+    vp!(C03, v.as_mut_ptr::<u64>() as u64 == x, "as_mut_ptr changed the address");
+    kani::cover!(x >= UPPER_BASE);
 }
